@@ -336,6 +336,9 @@ impl Ctx {
                 }
                 rules.insert(0, json!({"k": "MATCH", "pat": pat, "src": pre, "dst": pre, "with": "M", "from": from}));
                 rules.insert(0, json!({"k": "MATCH", "pat": pat, "src": "", "dst": pre, "with": "P", "from": from}));
+                // ... and MATCH rules that match everything, so that a lookup really happens for every artifact
+                rules.insert(0, json!({"k": "MATCH", "pat": "*", "src": "", "dst": "", "with": "P", "from": from}));
+                rules.insert(0, json!({"k": "MATCH", "pat": "*", "src": "", "dst": "", "with": "M", "from": from}));
                 let mut outs = vec![];
                 // every rule alone, and the whole list
                 let mut lists: Vec<Vec<Value>> = rules.iter().map(|r| vec![r.clone()]).collect();
